@@ -36,7 +36,9 @@ P_SECUPD = {
 }
 
 
-def ops_verify_flatten(ex, contract, timeout_ms=30000):
+def ops_verify_flatten(ex, contract, timeout_ms=30000, variant="one-level"):
+    if variant == "subs":
+        return ops.verify_flatten_subs(ex, contract, timeout_ms=timeout_ms)
     return ops.verify_flatten(ex, contract, timeout_ms=timeout_ms)
 
 
